@@ -10,6 +10,7 @@ from pyvc.engine import Engine
 from pyvc.runner import Unit, REPO
 from pyvc.sym import *  # noqa
 from . import spec_regs as S
+from pyvc.bounded import bounded_unit
 
 LEVEL = "proof"
 TRUSTED = [
@@ -142,4 +143,6 @@ def units(tier):
         Unit("C12/aarch64/is_reg_dependend_of", a64_unit, "P",
              [(A64, "ParserAArch64.is_reg_dependend_of"), (REG, "RegisterOperand.__init__")], timeout=600),
         Unit("C12/lemma/equivalence", lemma_unit, "L", []),
+        bounded_unit("C12/pairs-exhaustive", "c12_pairs", [(X86, "ParserX86ATT.is_reg_dependend_of"),
+                     (A64, "ParserAArch64.is_reg_dependend_of")], timeout=600),
     ]
